@@ -128,50 +128,7 @@ func checkC15(c *km.Ctx) {
 
 	// ---------- R-C15-1
 	checkUpsertStatements(c, "R-C15-1", "user_profile", []string{"profile_data"}, 2)
-	if pk := c.P.Pkg("cmd/keymasterd"); pk != nil {
-		if tm, ok := pk.Members["userProfile"].(*ssa.Type); ok {
-			seen := map[types.Type]bool{}
-			var walk func(t types.Type, path string)
-			walk = func(t types.Type, path string) {
-				t = types.Unalias(t)
-				if seen[t] {
-					return
-				}
-				seen[t] = true
-				switch x := t.(type) {
-				case *types.Pointer:
-					walk(x.Elem(), path)
-				case *types.Slice:
-					walk(x.Elem(), path+"[]")
-				case *types.Array:
-					walk(x.Elem(), path+"[]")
-				case *types.Map:
-					walk(x.Key(), path+"{key}")
-					walk(x.Elem(), path+"{}")
-				case *types.Named:
-					if x.Obj().Pkg() == nil || !strings.HasPrefix(x.Obj().Pkg().Path(), km.ModPath) {
-						return // third-party / std types bring their own gob support
-					}
-					st, ok := x.Underlying().(*types.Struct)
-					if !ok {
-						walk(x.Underlying(), path)
-						return
-					}
-					var unexported []string
-					for i := 0; i < st.NumFields(); i++ {
-						if !st.Field(i).Exported() {
-							unexported = append(unexported, st.Field(i).Name())
-						}
-						walk(st.Field(i).Type(), path+"."+st.Field(i).Name())
-					}
-					r.Add("R-C15-1", short(x.Obj().Pkg().Path())+"."+x.Obj().Name(), "gob-encoded struct "+x.Obj().Name(), c.P.Pos(x.Obj().Pos()), "only exported fields (gob silently drops the others)", sprintf("unexported=%v", unexported), len(unexported) == 0)
-				}
-			}
-			walk(tm.Type(), "userProfile")
-		} else {
-			r.AnchorLost("R-C15-1", "type userProfile")
-		}
-	}
+	checkGobStructs(c, "R-C15-1")
 	if fn := c.MustFunc("R-C15-1", "cmd/keymasterd", "(*RuntimeState).SaveUserProfile"); fn != nil {
 		n := 0
 		for _, ci := range km.CallsIn(fn) {
@@ -1034,3 +991,53 @@ func checkSQLArgKinds(c *km.Ctx, rule string) {
 
 // resolveThroughFrames: identity (statement texts are looked up in the frame of the Prepare call).
 func resolveThroughFrames(v ssa.Value) ssa.Value { return v }
+
+// checkGobStructs: every module-defined struct reachable from the gob-encoded user profile has only exported
+// fields (gob silently drops the others: the value is there until the profile is next loaded).
+func checkGobStructs(c *km.Ctx, rule string) {
+	r := c.R
+	if pk := c.P.Pkg("cmd/keymasterd"); pk != nil {
+		if tm, ok := pk.Members["userProfile"].(*ssa.Type); ok {
+			seen := map[types.Type]bool{}
+			var walk func(t types.Type, path string)
+			walk = func(t types.Type, path string) {
+				t = types.Unalias(t)
+				if seen[t] {
+					return
+				}
+				seen[t] = true
+				switch x := t.(type) {
+				case *types.Pointer:
+					walk(x.Elem(), path)
+				case *types.Slice:
+					walk(x.Elem(), path+"[]")
+				case *types.Array:
+					walk(x.Elem(), path+"[]")
+				case *types.Map:
+					walk(x.Key(), path+"{key}")
+					walk(x.Elem(), path+"{}")
+				case *types.Named:
+					if x.Obj().Pkg() == nil || !strings.HasPrefix(x.Obj().Pkg().Path(), km.ModPath) {
+						return // third-party / std types bring their own gob support
+					}
+					st, ok := x.Underlying().(*types.Struct)
+					if !ok {
+						walk(x.Underlying(), path)
+						return
+					}
+					var unexported []string
+					for i := 0; i < st.NumFields(); i++ {
+						if !st.Field(i).Exported() {
+							unexported = append(unexported, st.Field(i).Name())
+						}
+						walk(st.Field(i).Type(), path+"."+st.Field(i).Name())
+					}
+					r.Add(rule, short(x.Obj().Pkg().Path())+"."+x.Obj().Name(), "gob-encoded struct "+x.Obj().Name(), c.P.Pos(x.Obj().Pos()), "only exported fields (gob silently drops the others)", sprintf("unexported=%v", unexported), len(unexported) == 0)
+				}
+			}
+			walk(tm.Type(), "userProfile")
+		} else {
+			r.AnchorLost(rule, "type userProfile")
+		}
+	}
+}
